@@ -124,7 +124,7 @@ def _reset_after_hang(m):
 
 
 def asm(files, charset="bk", timeout=5.0, fs=None, handler="collect", listing=False, post=None, keep_root=False,
-        reset_after_hang=True):
+        reset_after_hang=True, root=None):
     """Assemble `files` = [(name, text), ...] (linked in that order).
 
     fs: {relative path: str|bytes} materialised in a scratch directory together with the sources
@@ -135,12 +135,17 @@ def asm(files, charset="bk", timeout=5.0, fs=None, handler="collect", listing=Fa
     n_err (error+critical count), exc, listing, emitted (list of [format, path]).
     """
     m = mods()
-    root = None
+    given_root = False
     res = {"outcome": None, "base": None, "code": None, "reports": [], "n_err": 0, "exc": None, "listing": None,
            "emitted": [], "post": None}
     try:
-        if fs is not None:
-            root = tempfile.mkdtemp(prefix="asm-", dir=tmp_root())
+        given_root = root is not None          # a caller-owned directory: same absolute paths across several assemblies
+        if fs is not None or given_root:
+            fs = fs or {}
+            if not given_root:
+                root = tempfile.mkdtemp(prefix="asm-", dir=tmp_root())
+            else:
+                keep_root = True
             for rel, content in fs.items():
                 p = Path(root) / rel
                 p.parent.mkdir(parents=True, exist_ok=True)
@@ -215,7 +220,7 @@ def asm(files, charset="bk", timeout=5.0, fs=None, handler="collect", listing=Fa
     finally:
         if root and not keep_root:
             rmtree(root)
-        elif root:
+        elif root and not given_root:
             res["root"] = root
 
 
